@@ -342,3 +342,120 @@ def run_point_scenario(p, wd):
         except Exception:
             pass
     return {"fails": fails[:20], "checks": counter[0]}
+
+
+def _check_metadata(pck, pf, keys, names, nd, L, maxmins, path, bad):
+    if list(pck.fields.keys()) != keys or list(pck.fields.values()) != list(range(len(names))):
+        bad("field names/indices differ", f"{pck.fields} vs {keys}")
+    if pck.ndims != nd or pck.time != pf.time or pck.max_level != pf.L or pck.limit_level != L or pck.nfields != len(names):
+        bad("global scalars differ", (pck.ndims, pck.time, pck.max_level, pck.limit_level, pck.nfields))
+    if list(pck.geo_low) != list(pf.geo_lo) or list(pck.geo_high) != list(pf.geo_hi):
+        bad("domain bounds differ", (pck.geo_low, pck.geo_high))
+    for lv in range(L + 1):
+        if list(pck.dx[lv]) != list(pf.dx(lv)) or list(pck.grid_sizes[lv]) != list(pf.n(lv)):
+            bad(f"cell size / grid size of level {lv} differ", (pck.dx[lv], pck.grid_sizes[lv]))
+        for d in range(nd):
+            cen = pf.geo_lo[d] + (np.arange(pf.n(lv)[d]) + 0.5) * pf.dx(lv)[d]
+            if pck.grids[lv][d].shape != cen.shape or not np.allclose(pck.grids[lv][d], cen, rtol=1e-13, atol=0):
+                bad(f"cell-centre grid of level {lv} dim {d} differs")
+        nb = pf.nboxes(lv)
+        if len(pck.boxes[lv]) != nb or len(pck.cells[lv]["indexes"]) != nb:
+            bad(f"number of boxes of level {lv} differs", (len(pck.boxes[lv]), nb))
+            continue
+        for b in range(nb):
+            lo, hi = pf.levels[lv][b]
+            if [list(x) for x in pck.boxes[lv][b]] != [list(x) for x in pf.box_bounds(lv, b)]:
+                bad(f"physical bounds of box {b} level {lv} differ", (pck.boxes[lv][b], pf.box_bounds(lv, b)))
+                break
+            i0, i1 = pck.cells[lv]["indexes"][b]
+            if tuple(int(x) for x in i0) != tuple(lo) or tuple(int(x) for x in i1) != tuple(hi):
+                bad(f"index range of box {b} level {lv} differs", (i0, i1, lo, hi))
+                break
+            if os.path.normpath(pck.cells[lv]["files"][b]) != os.path.normpath(os.path.join(path, f"Level_{lv}", pf.files[lv][b])) \
+                    or pck.cells[lv]["offsets"][b] != pf.offsets[lv][b]:
+                bad(f"binary file / offset of box {b} level {lv} differ", (pck.cells[lv]["files"][b], pck.cells[lv]["offsets"][b]))
+                break
+        if maxmins:
+            for c, k in enumerate(keys):
+                emin = np.array([float(f"{np.min(pf.data[lv][b][..., c]):.16e}") for b in range(nb)])
+                emax = np.array([float(f"{np.max(pf.data[lv][b][..., c]):.16e}") for b in range(nb)])
+                if not np.array_equal(pck.cells[lv]["mins"][k], emin) or not np.array_equal(pck.cells[lv]["maxs"][k], emax):
+                    bad(f"per-box min/max of field {k} level {lv} differ")
+                    break
+        elif "mins" in pck.cells[lv]:
+            pass
+    if len(pck.cells) != L + 1 or len(pck.boxes) != L + 1 or len(pck.grids) != L + 1:
+        bad("levels above the limit are exposed (or missing)", (len(pck.cells), L + 1))
+
+
+def run_metadata_scenario(p, wd):
+    """C02: opening a plotfile exposes exactly the metadata its headers state."""
+    import shutil
+    from amr_kitchen import PlotfileCooker
+    fails = []
+    counter = [0]
+    nd = p["ndims"]
+    names = list(p["names"])
+    n0 = tuple(p.get("n0") or ((16, 16, 8) if nd == 3 else (32, 16)))
+    pf = gen.make_pf(ndims=nd, names=names, n0=n0, geo_lo=tuple(p["geo_lo"])[:nd], dx0=tuple(p["dx0"])[:nd],
+                     nlevels=p["nlevels"], nfiles=p["nfiles"], layout=p["layout"], seed=p["seed"], box=8,
+                     box_sizes=tuple(p["box_sizes"]) if p.get("box_sizes") else None, time=p.get("time", 0.123),
+                     ref_line_extra=p.get("ref_line_extra", 0), payload="random")
+    path = os.path.join(wd, "plt")
+    gen.write_plotfile(path, pf)
+    # expected field keys: repeated names are renamed name_2, name_3, ...
+    keys = []
+    for nm in names:
+        if nm not in keys:
+            keys.append(nm)
+        else:
+            k = 2
+            while f"{nm}_{k}" in keys:
+                k += 1
+            keys.append(f"{nm}_{k}")
+
+    def bad(what, detail=""):
+        fails.append({"what": what, "call": call, "detail": str(detail)[:200]})
+
+    for lim in [None] + list(range(pf.L + 1)):
+        for maxmins in (False, True):
+            call = f"PlotfileCooker(plt, limit_level={lim}, maxmins={maxmins})"
+            counter[0] += 1
+            try:
+                pck = PlotfileCooker(path, limit_level=lim, maxmins=maxmins)
+            except Exception as e:      # noqa
+                bad("opening a well-formed plotfile raised", f"{type(e).__name__}: {e}")
+                continue
+            L = pf.L if lim is None else lim
+            try:
+                _check_metadata(pck, pf, keys, names, nd, L, maxmins, path, bad)
+            except (KeyError, IndexError, AttributeError, TypeError) as e:
+                bad("exposed metadata does not have the documented structure", f"{type(e).__name__}: {e}")
+            continue
+    call = f"PlotfileCooker(plt, limit_level={pf.L + 1})"
+    counter[0] += 1
+    try:
+        PlotfileCooker(path, limit_level=pf.L + 1)
+        bad("a level limit above the finest level was accepted")
+    except ValueError:
+        pass
+    except Exception as e:      # noqa
+        bad("a level limit above the finest level: unexpected exception", type(e).__name__)
+    # header-only: same global metadata without level headers or binaries
+    ho = os.path.join(wd, "plt_header_only")
+    os.makedirs(ho)
+    shutil.copy(os.path.join(path, "Header"), ho)
+    call = "PlotfileCooker(Header only, header_only=True)"
+    counter[0] += 1
+    try:
+        pck = PlotfileCooker(ho, header_only=True)
+        if list(pck.fields.keys()) != keys or pck.ndims != nd or pck.time != pf.time or pck.max_level != pf.L or \
+                list(pck.geo_low) != list(pf.geo_lo) or list(pck.geo_high) != list(pf.geo_hi) or \
+                [list(x) for x in pck.dx] != [list(pf.dx(lv)) for lv in range(pf.L + 1)] or \
+                [list(x) for x in pck.grid_sizes] != [list(pf.n(lv)) for lv in range(pf.L + 1)] or \
+                [[[list(x) for x in bx] for bx in lvb] for lvb in pck.boxes] != \
+                [[[list(x) for x in pf.box_bounds(lv, b)] for b in range(pf.nboxes(lv))] for lv in range(pf.L + 1)]:
+            bad("header-only opening exposes different global metadata")
+    except Exception as e:      # noqa
+        bad("header-only opening needs more than the Header", f"{type(e).__name__}: {e}")
+    return {"fails": fails[:20], "checks": counter[0]}
